@@ -19,6 +19,7 @@ const (
 	reqResponded                         /* response is already produced */
 	reqSaved                             /* no response was produced after the request is worked on */
 	reqNoreply                           /* the request was flushed when it was responded: its response is dropped */
+	reqAnswered                          /* one of the Respond helpers has been called for the request */
 )
 
 var Eunknownfid error = &Error{"unknown fid", EINVAL}
